@@ -166,6 +166,12 @@ def run(replay=None):
         elif r["kind"] == "holder_exec":
             if r["err"] or r.get("exec"):
                 ck.impl_violation("holder-exec", "fallback region of %d bytes: %s" % (r["n"], r.get("exec") or "error"), r)
+        elif r["kind"] == "reserve_sweep":
+            ck.coverage["evaluations"] += r["regions"]
+            ck.notes["reserve_sweep"] = {k: r[k] for k in ("regions", "cross_page", "bad")}
+            if r["bad"]:
+                ck.impl_violation("reserve-region-not-writable", "%d of %d interface-stub sized regions of the reserve cannot be written and read back (%d of them lie across a page boundary); first: %s" % (
+                    r["bad"], r["regions"], r["cross_page"], r["first"]), r)
         elif r["kind"] == "conc":
             if r["overlaps"] or r["oob"] or r["overgrant"]:
                 ck.impl_violation("conc:overlap" if r["overlaps"] else "conc:bounds",
